@@ -32,7 +32,7 @@ func lockObligations(c *Ctx, res *lockResult, rule string, fieldFilter func(key 
 
 func init() {
 	register("C01", &PropDef{
-		Explain: "Structural necessary conditions of 'Publish reaches exactly the subscribed handlers, once each, in order' (the registry mechanism; the behaviour over all histories is not decided): (R1) every access to the registry map uses the shard selected by the shard function for key k and indexes the map with that same k, k being reflect.TypeOf of the event type — so types sharing a shard can never see each other's handlers; whole-map operations only inside a loop provably covering every shard; (R2) the shard function is a pure, in-range function of the type (effect table + constant evaluation of mask vs array length); (R3) the dispatch loop ranges over a private copy of the registry list made under the read lock, and the live list has no use after the lock is released; (R4) per-registration delivery automaton: filter verdict before dispatch, at most one dispatch per registration per publish, skips only for filter/context/claim; (R5) registry edits: Subscribe appends a fresh registration at the tail after applying options; Unsubscribe removes exactly the matched element order-preservingly, at most once, returning nil iff it removed; the once-retirement removes by pointer identity; Clear deletes only its key; ClearAll resets every shard; HasHandlers/HandlerCount are len(lookup).",
+		Explain: "Structural necessary conditions of 'Publish reaches exactly the subscribed handlers, once each, in order' (the registry mechanism; the behaviour over all histories is not decided): (R1) every access to the registry map uses the shard selected by the shard function for key k and indexes the map with that same k, k being reflect.TypeOf of the event type — so types sharing a shard can never see each other's handlers; whole-map operations only inside a loop provably covering every shard; (R2) the shard function is a pure, in-range function of the type (effect table + constant evaluation of mask vs array length); (R3) the dispatch loop ranges over a private copy of the registry list made under the read lock, and the live list has no use after the lock is released; (R4) per-registration delivery automaton: filter verdict before dispatch, at most one dispatch per registration per publish, skips only for filter/context/claim; (R5) registry edits: Subscribe appends a fresh registration at the tail after applying options; Unsubscribe removes exactly the matched element order-preservingly, at most once, returning nil iff it removed; the once-retirement removes by pointer identity; Clear deletes only its key; ClearAll resets every shard; HasHandlers/HandlerCount are len(lookup). Added from seeded changes: the filter of a registration is evaluated (also when its parameter type is not the static type of the publish) before the claim and the dispatch; every registry access a publish makes, also in helpers, is keyed by the dynamic type; (R6) the stages ahead of the dispatch loop run no user callback under a bus lock, so a callback that publishes cannot stop the outer publish from reaching its handlers.",
 		Run: func(c *Ctx) {
 			c.Rule("C01.R1", "key agreement: shard chosen by shardFn(k), map indexed by the same k = reflect type of the event; whole-map ops only in a full loop")
 			c.Rule("C01.R2", "shard function: pure function of the type, index provably within the shard array")
@@ -66,7 +66,7 @@ func init() {
 		},
 	})
 	register("C02", &PropDef{
-		Explain: "Structural necessary conditions of 'subscribe, unsubscribe and publish stay consistent under every interleaving' (the linearizability-style statement over schedules is not decided): (R1) guarded-by: every read of the registry map happens with at least the read lock, every write with the write lock, of the same shard object (lock sets over the inlined supergraph from every exported root and escaping closure); (R2) read-modify-write atomicity: every list written back to the registry derives only from a lookup of the same key made after the write lock was taken, with no release in between, removing by pointer identity — no lost or duplicated subscription; (R3) the publish snapshot is a private copy taken under the read lock and once handlers are claimed by compare-and-swap.",
+		Explain: "Structural necessary conditions of 'subscribe, unsubscribe and publish stay consistent under every interleaving' (the linearizability-style statement over schedules is not decided): (R1) guarded-by: every read of the registry map happens with at least the read lock, every write with the write lock, of the same shard object (lock sets over the inlined supergraph from every exported root and escaping closure); (R2) read-modify-write atomicity: every list written back to the registry derives only from a lookup of the same key made after the write lock was taken, with no release in between, removing by pointer identity — no lost or duplicated subscription; (R3) the publish snapshot is a private copy taken under the read lock and once handlers are claimed by compare-and-swap. (R4) Deliveries are not lost for a foreign reason: the dispatch function is handed the publish context (provenance), and no exit of the dispatch function leaves the sequential lock held.",
 		Run: func(c *Ctx) {
 			c.Rule("C02.R1", "guarded-by for the registry: reads under ≥RLock, writes under Lock, of the same shard")
 			c.Rule("C02.R2", "registry read-modify-write inside one write-locked region, derived from the current list only, removal by pointer identity")
